@@ -47,6 +47,11 @@ func (g *Gen) Count(key string) { g.Stats[key]++ }
 
 var channels = map[string]*Channel{}
 
+// exitAfterOp: set by a channel whose op left a goroutine that cannot be stopped (channel
+// crash: a text that does not terminate); `exec` ends after answering that op and
+// lib/vcommon.exec_impl starts a new process for the remaining ops.
+var exitAfterOp bool
+
 func execLine(line string) (ans string) {
 	toks := strings.Fields(line)
 	if len(toks) == 0 {
@@ -117,6 +122,11 @@ func main() {
 			line, err := in.ReadString('\n')
 			if len(line) > 0 {
 				fmt.Fprintln(w, execLine(strings.TrimRight(line, "\n")))
+				w.Flush() // a process that dies later (fatal error, os.Exit) keeps the answers given so far
+				if exitAfterOp {
+					w.Flush()
+					os.Exit(0)
+				}
 			}
 			if err != nil {
 				break
